@@ -5,6 +5,7 @@ before the loop exits, n+1 count, addressing); string tags; string-table selecti
 the section and segment views (no overrides); symbol access and count recovery order without sections.
 """
 import ast
+from sa.canon import U
 from sa.world import get_world
 from sa import elfconf, layout, expr, paths, streams, dispatch, literals, hrules
 from sa.report import AnalysisError
@@ -96,7 +97,7 @@ def check_table_offset(ctx, w):
     rets = [r.value for r in expr.returns_of(f.node)]
     ok = len(rets) == 1 and isinstance(rets[0], ast.Tuple) and len(rets[0].elts) == 2 and \
         [expr.nfs(e, env) for e in rets[0].elts] == ['ptr', 'offset']
-    ctx.ob('G-TAB', f.construct, 'returns (pointer, file offset)', ok, got=[ast.unparse(r) for r in rets])
+    ctx.ob('G-TAB', f.construct, 'returns (pointer, file offset)', ok, got=[U(r) for r in rets])
     tr = expr.assign_trace(f.node, env)
     ctx.ob('G-TAB', f.construct, 'file offset = first address_offsets(pointer) mapping', any('address_offsets' in v for op, v in tr.get('offset', [])), got=tr.get('offset'))
     n = 0
@@ -107,7 +108,7 @@ def check_table_offset(ctx, w):
             if isinstance(c, ast.Subscript) and isinstance(c.value, ast.Call) and (dispatch.callee_name(c.value) or '').endswith('get_table_offset'):
                 n += 1
                 idx = c.slice.value if isinstance(c.slice, ast.Constant) else None
-                ctx.ob('G-TAB', g.construct, 'table position %s uses the file offset [1]' % ast.unparse(c.value)[:50], idx == 1, got=idx, line=c.lineno,
+                ctx.ob('G-TAB', g.construct, 'table position %s uses the file offset [1]' % U(c.value)[:50], idx == 1, got=idx, line=c.lineno,
                        msg='a table pointer tag holds a virtual address: reading the table at it (element [0]) instead of at the mapped file '
                            'offset (element [1]) fails whenever the segment is not loaded at its file offset')
             elif isinstance(c, ast.Assign) and isinstance(c.value, ast.Call) and (dispatch.callee_name(c.value) or '').endswith('get_table_offset'):
@@ -137,7 +138,7 @@ def check_iter(ctx, w):
     loops = [n for n in ast.walk(f.node) if isinstance(n, ast.For)]
     ok = False
     why = ''
-    if len(loops) == 1 and ast.unparse(loops[0].iter) == 'itertools.count()':
+    if len(loops) == 1 and U(loops[0].iter) == 'itertools.count()':
         body = loops[0].body
         nvar = loops[0].target.id
         kinds = []
@@ -151,7 +152,7 @@ def check_iter(ctx, w):
                 c = expr.cond_str(st.test, env)
                 kinds.append('break' if c == expr.spec_cond("d_tag == 'DT_NULL'") else 'break?' + c)
             else:
-                kinds.append('other:' + ast.unparse(st)[:30])
+                kinds.append('other:' + U(st)[:30])
         ok = kinds == ['get', 'yield', 'break']
         why = str(kinds)
     ctx.ob('W-ITER', f.construct, 'get, yield-if-match, break-on-DT_NULL in this order', ok, got=why,
@@ -207,7 +208,7 @@ def check_string_tags(ctx, w):
 def check_wiring(ctx, w):
     f = w.model.func(DYN, 'DynamicSection.__init__')
     env = expr.FEnv(f.node, params=('header', 'name', 'elffile'))
-    calls = [c for c in ast.walk(f.node) if isinstance(c, ast.Call) and ast.unparse(c.func) == 'Dynamic.__init__']
+    calls = [c for c in ast.walk(f.node) if isinstance(c, ast.Call) and U(c.func) == 'Dynamic.__init__']
     got = [expr.nfs(a, env) for a in calls[0].args] if calls else None
     want = ['self', 'stream', 'elffile', "get_section(elffile,sh_link,tuple('SHT_STRTAB','SHT_NOBITS'))", 'sh_offset',
             expr.spec_cond("sh_type == 'SHT_NOBITS'")]
@@ -215,7 +216,7 @@ def check_wiring(ctx, w):
            msg='section view: string table must be the type-checked sh_link section and the table starts at sh_offset')
     f = w.model.func(DYN, 'DynamicSegment.__init__')
     env = expr.FEnv(f.node, params=('header', 'stream', 'elffile'), inline=False)
-    calls = [c for c in ast.walk(f.node) if isinstance(c, ast.Call) and ast.unparse(c.func) == 'Dynamic.__init__']
+    calls = [c for c in ast.walk(f.node) if isinstance(c, ast.Call) and U(c.func) == 'Dynamic.__init__']
     got = [expr.nfs(a, env) for a in calls[0].args] if calls else None
     want = ['self', 'stream', 'elffile', 'stringtable', 'p_offset', expr.spec_cond('p_filesz == 0')]
     ctx.ob('W-WIRE', f.construct, 'Dynamic(stream, elffile, stringtable, p_offset, p_filesz == 0)', got == want, got=got, expected=want)
@@ -232,16 +233,16 @@ def check_wiring(ctx, w):
     rp = paths.returns_with_conds(f.node)
     seq = []
     for conds, ret, p in rp:
-        seq.append(([(expr.cond_str(t, env), pol) for t, pol in conds], expr.nfs(ret, env)))
+        seq.append(([expr.CP(expr.cond_str(t, env), pol) for t, pol in conds], expr.nfs(ret, env)))
     want = [([('T(_stringtable)', True)], '_stringtable'),
-            ([('T(_stringtable)', False), (expr.spec_cond('table_offset is not None'), True)], '_stringtable'),
-            ([('T(_stringtable)', False), (expr.spec_cond('table_offset is not None'), False)], '_stringtable')]
+            ([('T(_stringtable)', False), expr.CP(expr.spec_cond('table_offset is not None'), True)], '_stringtable'),
+            ([('T(_stringtable)', False), expr.CP(expr.spec_cond('table_offset is not None'), False)], '_stringtable')]
     ctx.ob('W-WIRE', f.construct, 'selection order: given table, DT_STRTAB, .dynstr', seq == want, got=seq, expected=want)
     tr = expr.assign_trace(f.node, env)
     ctx.ob('W-WIRE', f.construct, 'DT_STRTAB table / .dynstr fallback',
            tr.get('self._stringtable') == [('=', '_DynamicStringTable(_stream,table_offset)'), ('=', "get_section_by_name(elffile,'.dynstr')")],
            got=tr.get('self._stringtable'))
-    src = ast.unparse(f.node)
+    src = U(f.node)
     ctx.ob('W-WIRE', f.construct, "table offset from get_table_offset('DT_STRTAB')", "_, table_offset = self.get_table_offset('DT_STRTAB')" in src)
     f = w.model.func(DYN, '_DynamicStringTable.get_string')
     env = expr.FEnv(f.node, params=('offset',))
@@ -268,14 +269,14 @@ def check_symbols(ctx, w):
     want = ('parse', '_stream', 'Elf_Sym', expr.spec_nf('tab_offset + index * _symbol_size'))
     ctx.ob('E-i', f.construct, 'symbol at file offset of DT_SYMTAB + index*sizeof(Elf_Sym)', ops == [want], got=ops, expected=want,
            msg='dynamic symbol must be read at the *file offset* (not the address) of DT_SYMTAB + index * entry size')
-    ctx.ob('E-i', f.construct, 'offset from DT_SYMTAB', "tab_ptr, tab_offset = self.get_table_offset('DT_SYMTAB')" in ast.unparse(f.node))
+    ctx.ob('E-i', f.construct, 'offset from DT_SYMTAB', "tab_ptr, tab_offset = self.get_table_offset('DT_SYMTAB')" in U(f.node))
     tr = expr.assign_trace(f.node, env)
     ctx.ob('E-i', f.construct, 'name through the selected string table at st_name',
            tr.get('symbol_name') == [('=', 'get_string(string_table,st_name)')] and tr.get('string_table') == [('=', '_get_stringtable(self)')],
            got=(tr.get('symbol_name'), tr.get('string_table')))
     f = w.model.func(DYN, 'DynamicSegment.num_symbols')
     env = expr.FEnv(f.node, inline=False)
-    src = ast.unparse(f.node)
+    src = U(f.node)
     order = [src.find("self.get_table_offset('DT_GNU_HASH')"), src.find("self.get_table_offset('DT_HASH')"), src.find("self.get_table_offset('DT_SYMTAB')")]
     ctx.ob('E-i', f.construct, 'recovery order GNU hash, SysV hash, nearest pointer', all(o >= 0 for o in order) and order == sorted(order), got=order)
     tr = expr.assign_trace(f.node, env)
